@@ -26,7 +26,7 @@ impl Check for Fixpoint {
         "fixpoint"
     }
     fn cases(&self, tier: Tier) -> usize {
-        tier.pick(40_000, 1_000_000)
+        tier.pick(200_000, 4_000_000)
     }
     fn strategy(&self, _tier: Tier) -> BoxedStrategy<Case> {
         let fc = c07::fol_cfg();
@@ -159,7 +159,7 @@ impl Check for Determinism {
         8
     }
     fn cases(&self, tier: Tier) -> usize {
-        tier.pick(160, 4_000)
+        tier.pick(600, 10_000)
     }
     fn strategy(&self, _tier: Tier) -> BoxedStrategy<DetCase> {
         let c = det_cfg();
